@@ -5,8 +5,9 @@ import (
 	"time"
 )
 
-// cmdSelftest runs the engine on small harnesses with known verdicts: two lemmas that must be
-// proved, three planted defects that must be found with a model, and one run-time panic.
+// cmdSelftest runs the engine on small harnesses with known verdicts: lemmas that must be
+// proved, planted defects that must be found with a model, one run-time panic, and the
+// ownership monitor (use after sync.Pool.Put, locked and unlocked shared writes).
 func cmdSelftest(args []string) int {
 	l, err := loadProgram([]string{"internal/verifself"})
 	if err != nil {
@@ -26,6 +27,9 @@ func cmdSelftest(args []string) int {
 		{"SelfIndex", "PANIC:", ""},
 		{"SelfStrings", "", "R:done"},
 		{"SelfSyncMap", "", "R:done"},
+		{"SelfPoolUse", "SHAREDWRITE:read", ""},
+		{"SelfPoolOK", "", "R:done"},
+		{"SelfUnlockedWrite", "SHAREDWRITE:store", ""},
 	}
 	fail := 0
 	for _, c := range cases {
